@@ -2,8 +2,10 @@ package dsmr2
 
 import (
 	"context"
+	"encoding/json"
 	"errors"
 	"fmt"
+	"os"
 	"sync"
 	"time"
 
@@ -386,3 +388,13 @@ var (
 )
 
 func idOfBytes(b []byte) ids.ID { return utils.ToID(b) }
+
+// fxTraceCase writes the case about to run to $VERIF_TRACE_CASE (if set), so that a
+// case on which the code under test never returns can be identified afterwards.
+func fxTraceCase(c any) {
+	if p := os.Getenv("VERIF_TRACE_CASE"); p != "" {
+		if b, err := json.Marshal(c); err == nil {
+			_ = os.WriteFile(p, b, 0o644)
+		}
+	}
+}
